@@ -23,6 +23,12 @@ def observe(s, mc):
     atoms = mc.atoms
     o = {"arrays": {n: h(a.tobytes()) for n, a in sorted(atoms.arrays.items()) if n != "vid"}, "cell": h(atoms.cell.array.tobytes()), "n": len(atoms),
          "step_count": int(mc.step_count), "rng": h(repr(mc._rng.bit_generator.state).encode())}
+    # simulation-level settings as the running object holds them
+    o["settings"] = {}
+    for nm in ("temperature", "pressure", "external_stress", "chemical_potential", "accessible_volume", "max_cycles"):
+        if hasattr(mc, nm):
+            o["settings"][nm] = np.array(getattr(mc, nm), dtype=float).tobytes().hex()
+    o["table"] = [[nm, int(ms.interval), float(ms.probability).hex(), int(ms.minimum_count)] for nm, ms in getattr(mc, "moves", {}).items()]
     if hasattr(mc, "move_history"):
         o["hist"] = [[str(a), None if b is None else bool(b)] for a, b in mc.move_history]
         o["last_E"] = float(mc.context.last_potential_energy).hex()
